@@ -67,8 +67,19 @@ impl HetTable {
         reader.seek(SeekFrom::Start(offset))?;
 
         // Read the compressed/encrypted data
-        let mut data = vec![0u8; compressed_size as usize];
-        reader.read_exact(&mut data)?;
+        // `compressed_size` comes from the archive header and is untrusted: read at most that
+        // many bytes and let the buffer grow with what the file really holds.
+        let mut data = Vec::new();
+        reader
+            .by_ref()
+            .take(compressed_size)
+            .read_to_end(&mut data)?;
+        if data.len() as u64 != compressed_size {
+            return Err(Error::invalid_format(format!(
+                "HET table claims {compressed_size} bytes but only {} are present",
+                data.len()
+            )));
+        }
 
         // Check if we have at least the extended header (12 bytes)
         if data.len() < 12 {
